@@ -29,14 +29,14 @@ def model(c, runs):
              cfg=cfg_text(constants=dict(one, OpsA={"send_err"}, Codes={2}, FixCredit=False, SendN=2), invariants=["EveryByteCredited"])),
         dict(name="liveness: window 3 packet 2 threshold 0, stdout+stderr, types 1,2 credited", module="Channel",
              cfg=cfg_text(constants=dict(one, OpsA={"sendall", "sendall_err"}, Codes={1, 2}, ReadSizes={2}), invariants=[], **LIVE)),
-        dict(name="liveness: packet > window (window 2 packet 3 threshold 1)", module="Channel",
-             cfg=cfg_text(constants=dict(one, OpsA={"sendall", "sendall_err"}, W0=2, MaxPkt=3, PeerMax=3, Thresh=1, MaxCalls=2), invariants=[], **LIVE)),
         dict(name="liveness, pinned discard: the sender starves", module="Channel", expect="<liveness>",
              cfg=cfg_text(constants=dict(one, OpsA={"sendall_err"}, Codes={1, 2}, FixCredit=False, MaxCalls=2, SendN=5, ReadSizes={2}),
                           invariants=[], **LIVE)),
     ]
     if not c.quick:
         jobs += [
+            dict(name="liveness: packet > window (window 2 packet 3 threshold 1)", module="Channel",
+                 cfg=cfg_text(constants=dict(one, OpsA={"sendall", "sendall_err"}, W0=2, MaxPkt=3, PeerMax=3, Thresh=1, MaxCalls=2), invariants=[], **LIVE)),
             dict(name="safety: 2 senders (sendall, sendall_stderr with types 1,2), looping readers", module="Channel",
                  kw={"timeout": 850, "workers": 4},
                  cfg=cfg_text(constants=dict(BASE, OpsA={"sendall", "sendall_err"}, Codes={1, 2}, SendN=3, ReadSizes={2}), invariants=INVS)),
@@ -58,8 +58,8 @@ def model(c, runs):
                              cfg=cfg_text(constants=dict(BASE, OpsA={"sendall", "sendall_err"}, W0=w, MaxPkt=p, PeerMax=p, Thresh=t, SendN=3,
                                                          ReadSizes={2}), invariants=[], **LIVE)))
         jobs.append(dict(name="liveness: both directions at once", module="Channel", kw={"timeout": 850, "workers": 4},
-                         cfg=cfg_text(constants=dict(BASE, UsersA={"a1"}, UsersB={"b1"}, Daemons={"dA_out", "dA_err", "dB_out", "dB_err"},
-                                                     OpsA={"sendall"}, OpsB={"sendall_err"}, SendN=4, ReadSizes={2}), invariants=[], **LIVE)))
+                         cfg=cfg_text(constants=dict(BASE, UsersA={"a1"}, UsersB={"b1"}, Daemons={"dA_err", "dB_out"},
+                                                     OpsA={"sendall"}, OpsB={"sendall_err"}, W0=2, SendN=3, ReadSizes={2}), invariants=[], **LIVE)))
     res = dc.mc_batch(c, jobs)
     # RP: the discard counterexample on the real code (then judged by the trace spec like every other schedule)
     consts = dict(one, SendN=2)
